@@ -11,6 +11,7 @@ AllKV == KVs(Breaks, Degs, MaxNpts)
 
 Pts(n) == (IF "gen" \in PtKinds THEN {Gen1(n), Gen2(n)} ELSE {})
           \cup (IF "pos" \in PtKinds THEN {[i \in 1..n |-> R(1 + ((i * 3) % 4))]} ELSE {})
+          \cup (IF "flat" \in PtKinds THEN {Const(n, Q(5, 2))} ELSE {})
           \cup (IF "unit" \in PtKinds THEN {Unit(n, k) : k \in 1..n} ELSE {})
 Wts(n) == (IF "none" \in WtKinds THEN {<<>>} ELSE {})
           \cup (IF "const" \in WtKinds THEN {Const(n, Two)} ELSE {})
@@ -58,7 +59,10 @@ EqOthers(A) ==
       ratl == IF A.W = <<>> THEN {Curve(U, A.P, Const(n, Two)), Curve(U, A.P, WGen1(n))}
               ELSE {Curve(U, A.P, [i \in 1..n |-> Mul(A.W[i], R(3))]), Curve(U, A.P, <<>>)}
       far  == {[A EXCEPT !.U = ShiftKV(U, One).kv]}
-  IN refs \cup pert \cup ratl \cup far \cup {[r EXCEPT !.P[1] = Add(@, One)] : r \in refs}
+      (* same control points and weights on ANOTHER knot vector with as many control points:   *)
+      (* equal tuples, (usually) different functions; for a flat curve the same function       *)
+      sameN == {Curve(V, A.P, A.W) : V \in {W \in AllKV : Npts(W) = n /\ W # U /\ Limits(W) = Limits(U)}}
+  IN refs \cup pert \cup ratl \cup far \cup sameN \cup {[r EXCEPT !.P[1] = Add(@, One)] : r \in refs}
 
 MCArgs(name, h, dep) ==
   IF name \notin Acts THEN {} ELSE
